@@ -1,6 +1,7 @@
 package wh
 
 import (
+	"encoding/binary"
 	"crypto/sha256"
 	"encoding/base64"
 	"fmt"
@@ -41,6 +42,7 @@ var Shapes = []string{"plain", "ext", "junk1", "otherlog", "stale-own-valid", "s
 //	stale-own-valid   carries an older valid cosignature/v1 + legacy signature of the witness
 //	stale-own-invalid carries a corrupted signature line under the witness's name/key hash
 //	dup-logsig        the log's signature line twice
+//	namesake-future/-past/-legacy  an unverifiable line under the witness's key NAME (other key hash), cosignature-shaped with a far-future / ancient timestamp, or legacy-shaped
 func (g *CPGen) Get(l LogCfg, b *uni.Branch, n int, shape string) ([]byte, Meta) {
 	key := fmt.Sprintf("%s|%s|%s|%d|%s", l.Origin, KeyID(l.Key.Verif), b.Name, n, shape)
 	g.mu.Lock()
@@ -128,6 +130,23 @@ func (g *CPGen) Get(l LogCfg, b *uni.Branch, n int, shape string) ([]byte, Meta)
 		lines := uni.SigLine(u.W1.CosigVerif.Name(), u.W1.CosigVerif.KeyHash(), append(make([]byte, 8), append(bad[:], bad[:]...)...)) +
 			uni.SigLine(u.W1.Verif.Name(), u.W1.Verif.KeyHash(), append(bad[:], bad[:]...))
 		cp = uni.AppendSigLines(cp, lines)
+	case strings.HasPrefix(shape, "namesake"):
+		// Unverifiable lines under the WITNESS's key name but another key
+		// hash: cosignature/v1-shaped (8-byte timestamp + 64 bytes) with a
+		// timestamp far in the future or in the past, and legacy-shaped.
+		junk := sha256.Sum256([]byte("namesake" + text))
+		ts := make([]byte, 8)
+		switch shape {
+		case "namesake-future":
+			binary.BigEndian.PutUint64(ts, 1<<40) // ~ year 36812
+		case "namesake-past":
+			binary.BigEndian.PutUint64(ts, 1)
+		}
+		line := uni.SigLine(u.W1.CosigVerif.Name(), 0x01020304, append(ts, append(junk[:], junk[:]...)...))
+		if shape == "namesake-legacy" {
+			line = uni.SigLine(u.W1.Verif.Name(), 0x01020304, append(junk[:], junk[:]...))
+		}
+		cp = uni.AppendSigLines(cp, line)
 	case shape == "dup-logsig":
 		_, sigs, _ := uni.SplitNote(cp)
 		cp = uni.AppendSigLines(cp, sigs[0]+"\n")
